@@ -320,6 +320,13 @@ async def explore(r: R, client, db: rg.Db, objs, rng: random.Random, mtu: int, t
 
     cls = '/unregistered-include' if db.has_unregistered_include else ''
     k_disc = f'discovery{tag}'
+
+    def read_key(key: str, got: bytes, want: bytes) -> str:
+        # one mechanism key when the client's idea of the bearer's ATT_MTU is not the negotiated one
+        # and the value came back cut short: every kind of long attribute is hit the same way
+        if client.mtu != mtu and len(got) < len(want) and want[:len(got)] == got:
+            return f'read{tag}/truncated/client-bearer-mtu-not-negotiated'
+        return key
     by_handle = {s.handle: s for s in db.services if s.placed}
 
     # 1. primary services
@@ -483,7 +490,7 @@ async def explore(r: R, client, db: rg.Db, objs, rng: random.Random, mtu: int, t
         if lc != 'short':
             r.ev('read_checks_long')
         if ok:
-            r.check(bytes(v) == exp, key,
+            r.check(bytes(v) == exp, read_key(key, bytes(v), exp),
                     lambda: f'handle {h} ({kind}): read {len(v)} bytes {bytes(v)[:24].hex()}.. expected {len(exp)} bytes '
                             f'{exp[:24].hex()}..; first difference at '
                             f'{next((i for i in range(min(len(v), len(exp))) if v[i] != exp[i]), min(len(v), len(exp)))}; {ctx()}')
@@ -546,7 +553,8 @@ async def explore(r: R, client, db: rg.Db, objs, rng: random.Random, mtu: int, t
         if lc != 'short':
             r.ev('read_checks_long')
         if ok:
-            r.check(bytes(v) == new, key, lambda: f'handle {h}: read {len(v)} bytes, current value has {len(new)}; {ctx()}')
+            r.check(bytes(v) == new, read_key(key, bytes(v), new),
+                    lambda: f'handle {h}: read {len(v)} bytes, current value has {len(new)}; {ctx()}')
     return tree_ok
 
 
